@@ -143,6 +143,10 @@ func TestVerifC20Threshold(t *testing.T) {
 					}
 				}
 				completed := strings.HasPrefix(resStr, "key:") || strings.HasPrefix(resStr, "cerr:")
+				if completed && viol == "" && len(distinct) < c.t {
+					// the attempt went on to Combine (and its progress was discarded) before `threshold` DISTINCT parts
+					viol = "!VIOL:the unseal attempt proceeded to combine with fewer than threshold distinct parts (" + resStr + ")#c20-attempt-below-threshold"
+				}
 				if completed {
 					distinct = map[string]bool{}
 				} else if viol == "" && after != len(distinct) {
